@@ -111,13 +111,7 @@ def run(ctx, F):
                 ctx.ok("F5-candidate-table", "@import candidates (no extras)", {"list": imp})
     # ---------------------------------------------------------------- do_find_file
     dff = prog.one("Context<AnyLoader>>::do_find_file")
-    ends = set()
-    for bi, t in dff.calls():
-        if (mir.callee_name(t) or "").endswith("<str>::ends_with"):
-            recv = sym.strip_transparent(S.operand(dff, t["args"][0]))
-            lit = t["args"][1].get("v")
-            if recv == ("param", 2, ()) and lit:
-                ends.add(lit)
+    _p, ends, _c = url_literals(prog, dff)
     if ends == SHORTCUT:
         ctx.ok("F5-extension-shortcut", "explicit extensions", {"set": sorted(ends)})
     else:
@@ -218,16 +212,7 @@ def run(ctx, F):
         ctx.anchor_lost("find_file read", f"expected one SourceFile::read in find_file, found {len(reads)}")
     # ---------------------------------------------------------------- plain css fallback predicate (Import arm)
     hi = prog.one("output::transform::handle_item")
-    pre, suf = set(), set()
-    css_url = 0
-    for bi, t in hi.calls():
-        n = mir.callee_name(t) or ""
-        if n.endswith("<str>::starts_with") and t["args"][1].get("v"):
-            pre.add(t["args"][1]["v"])
-        if n.endswith("<str>::ends_with") and t["args"][1].get("v"):
-            suf.add(t["args"][1]["v"])
-        if n.endswith("::is_css_url"):
-            css_url += 1
+    pre, suf, css_url = url_literals(prog, hi)
     if pre == FALLBACK_PREFIXES and suf == FALLBACK_SUFFIXES and css_url == 1:
         ctx.ok("F5-plain-css-import", "fallback predicate", {"prefixes": sorted(pre), "suffixes": sorted(suf), "is_css_url": css_url})
     else:
@@ -248,6 +233,48 @@ def run(ctx, F):
     ctx.explanation = ("Candidate tables read from the closure arrays of Context::find_file (AST, templates normalised over base/name) and compared with the statement's lists; "
                        "provenance (MIR) of every Loader::find_file argument and of do_find_file's URL; first-hit return on the CFG; literal sets of the extension shortcut and of the plain-CSS fallback; "
                        "forward iteration of the load-path vectors in FsLoader and CargoLoader, append-only push_path.")
+
+
+def url_literals(prog, body, param_filter=None):
+    """(prefixes, suffixes, is_css_url calls) tested on a url in `body`, looking through local bool
+    predicates on strings (a shared `has_stylesheet_ext(url)` helper) and their closures."""
+    pre, suf = set(), set()
+    css_url = 0
+    seen = set()
+
+    def scan(b, depth):
+        nonlocal css_url
+        if b.def_ in seen or depth > 2:
+            return
+        seen.add(b.def_)
+        direct = False
+        for bi, t in b.calls():
+            n = mir.callee_name(t) or ""
+            if n.endswith("<str>::starts_with"):
+                if t["args"][1].get("v"):
+                    pre.add(t["args"][1]["v"])
+                    direct = True
+            elif n.endswith("<str>::ends_with"):
+                if t["args"][1].get("v"):
+                    suf.add(t["args"][1]["v"])
+                    direct = True
+            elif n.endswith("::is_css_url"):
+                css_url += 1
+            elif n in prog.bodies and prog.bodies[n].ret == "bool" and depth < 2 and any("str" in x for x in t.get("arg_tys", [])) and not n.startswith("<"):
+                scan(prog.bodies[n], depth + 1)
+        if depth > 0:
+            # literals of a helper predicate (also when they sit in an array that a closure walks)
+            for c in list(mir.iter_consts_body(b.raw)) + [c for cl in prog.closures_of(b.def_) for c in mir.iter_consts_body(cl.raw)]:
+                v = c.get("v")
+                if isinstance(v, str) and 1 < len(v) < 12:
+                    if v.startswith("."):
+                        suf.add(v)
+                    elif v.endswith("/") or v.endswith(":"):
+                        pre.add(v)
+            for cl in prog.closures_of(b.def_):
+                scan(cl, depth)
+    scan(body, 0)
+    return pre, suf, css_url
 
 
 def candidate_term(t):
